@@ -747,7 +747,7 @@ def gen_fragment(repo, d, body, report):
     rewrite_for_loops(src, a0, b1 + 1, edits, stats)
     lo_off, hi_off = toks[a0].start, toks[b1].end
     text, segs = edits.apply(src.text, lo_off, hi_off)
-    head = f"{d.get('qual', '')} fn {d['name']}({d['sig'].split('->')[0].strip()})"
+    head = f"{d.get('qual', '')} fn {d['name']}{d.get('generics', '')}({d['sig'].split('->')[0].strip()})"
     if "->" in d["sig"]:
         head += " -> " + d["sig"].split("->", 1)[1].strip()
     head += "\n" + spec.rstrip() + "\n{\n"
